@@ -48,9 +48,31 @@ class World(object):
     def __init__(self):
         self.log = []
         self.violations = []
+        self.sent_nodes = []
 
 
-def build(reconnect_opt):
+class NoiseProtocolDouble(object):
+    """stands for consonance's WANoiseProtocol inside the REAL YowNoiseLayer: same states, no cryptography"""
+
+    def __init__(self, layer, world, consts):
+        self.layer, self.w, self.K = layer, world, consts
+        self.state = consts.STATE_INIT
+        self.rs = None
+
+    def reset(self):
+        self.w.log.append("transport-reset")
+        self.state = self.K.STATE_INIT
+
+    def send(self, data):
+        if self.state != self.K.STATE_TRANSPORT:
+            raise RuntimeError("send outside the transport state (%s)" % self.state)
+        self.layer.toLower(data)
+
+    def receive(self):
+        return self.layer._incoming_segments_queue.get(False)
+
+
+def build(reconnect_opt, real_noise=False):
     import yowsup.layers as L
     from yowsup.stacks.yowstack import YowStack, YowStackBuilder
     from yowsup.layers.network import YowNetworkLayer
@@ -64,6 +86,7 @@ def build(reconnect_opt):
         """stands for segments + noise + coder: frames are stanzas already; records the events the noise layer reacts to"""
 
         def send(self, node):
+            w.sent_nodes.append(node)
             self.toLower(b"frame")
 
         def receive(self, node):
@@ -97,17 +120,64 @@ def build(reconnect_opt):
             w.log.append("announced-down")
             return YowInterfaceLayer.onDisconnected(self, ev)
 
+    class CoderDouble(L.YowLayer):
+        """stands for the coder layer above the real noise layer: stanzas travel as objects; a failure frame built by the noise layer is decoded"""
+
+        def send(self, node):
+            w.sent_nodes.append(node)
+            self.toLower(b"frame")
+
+        def receive(self, data):
+            if isinstance(data, (bytes, bytearray, list)):
+                from yowsup.layers.coder.decoder import ReadDecoder
+                from yowsup.layers.coder.tokendictionary import TokenDictionary
+                data = ReadDecoder(TokenDictionary()).getProtocolTreeNode(bytearray(data))
+            self.toUpper(data)
+
+        def onEvent(self, ev):
+            if ev.getName() == YowAuthenticationProtocolLayer.EVENT_AUTHED:
+                w.log.append("authed-broadcast")
+            return False
+
     prot = YowStackBuilder.getProtocolLayers()
-    st = YowStack((YowNetworkLayer, Bridge, AxolotlControlLayer, L.YowParallelLayer(prot), App), reversed=False)
-    net, app = st.getLayer(0), st.getLayer(4)
+    if real_noise:
+        import yowsup.layers.noise.layer as NM
+        from consonance.structs.keypair import KeyPair
+        from consonance.structs.publickey import PublicKey
+
+        class Worker(object):
+            """stands for WANoiseProtocolHandshakeWorker (a thread running the Noise handshake): start() = handshake begins"""
+
+            def __init__(self, protocol, stream, client_config, s, rs=None, finish_callback=None):
+                self.protocol, self.finish = protocol, finish_callback
+                w.worker = self
+
+            def start(self):
+                self.protocol.reset()
+                w.log.pop()                      # the worker's own reset before it starts is not a reaction to a disconnect
+                self.protocol.state = NM.WANoiseProtocol.STATE_HANDSHAKE
+                w.log.append("login-attempt")
+        NM.WANoiseProtocolHandshakeWorker = Worker
+        st = YowStack((YowNetworkLayer, NM.YowNoiseLayer, CoderDouble, AxolotlControlLayer, L.YowParallelLayer(prot), App), reversed=False)
+        noise = st.getLayer(1)
+        noise._wa_noiseprotocol = NoiseProtocolDouble(noise, w, NM.WANoiseProtocol)
+        w.noise, w.NM = noise, NM
+        net, app = st.getLayer(0), st.getLayer(5)
+    else:
+        st = YowStack((YowNetworkLayer, Bridge, AxolotlControlLayer, L.YowParallelLayer(prot), App), reversed=False)
+        net, app = st.getLayer(0), st.getLayer(4)
     disp = Dispatcher(net, w)
     setattr(net, "_YowNetworkLayer__create_dispatcher", lambda t: disp)
     st.setProp(iqmod.YowIqProtocolLayer.PROP_PING_INTERVAL, 1)
     st.setProp(YowInterfaceLayer.PROP_RECONNECT_ON_STREAM_ERR, reconnect_opt)
     prof = ST.StubProfile()
     prof.axolotl_manager = ST.ManagerStub(True)
+    if real_noise:
+        from yowsup.config.v1.config import Config
+        prof.config = Config(phone=prof.username, client_static_keypair=KeyPair.from_bytes(bytes(range(1, 65))), server_static_public=PublicKey(bytes(range(100, 132))))
+        prof.write_config = lambda c: None
     st.setProp("profile", prof)
-    iq = [s for s in st.getLayer(3).sublayers if type(s).__name__ == "YowIqProtocolLayer"][0]
+    iq = [s for s in st.getLayer(4 if real_noise else 3).sublayers if type(s).__name__ == "YowIqProtocolLayer"][0]
     iqmod.YowPingThread.start = lambda self: w.log.append("keepalive-started")
     return st, w, net, disp, app, iq, iqmod
 
@@ -153,15 +223,29 @@ def ping_tick(iq, iqmod):
         iqmod.time = old
 
 
-EVENTS = ("late-close-callback", "connect-request", "connected", "socket-error", "peer-close", "disconnect-request", "success", "failure", "stream-error-conflict", "stream-error-ack",
+EVENTS = ("keys-upload-result", "handshake-done", "handshake-failed", "late-close-callback", "connect-request", "connected", "socket-error", "peer-close", "disconnect-request", "success", "failure", "stream-error-conflict", "stream-error-ack",
           "stream-error-other", "ping-tick", "pong")
 
 
-def h_history(ctx, n, prefix=()):
+def h_history(ctx, n, prefix=(), real_noise=False):
     reconnect_opt = ctx.flag("reconnect_option")
-    st, w, net, disp, app, iq, iqmod = build(reconnect_opt)
+    st, w, net, disp, app, iq, iqmod = build(reconnect_opt, real_noise)
+
+    if ctx.flag("unconfirmed_prekeys_at_start"):
+        # one-time keys generated earlier whose upload was never confirmed: the next login is passive, uploads them and reboots the connection
+        st.getProp("profile").axolotl_manager.unsent = [ST.StubPreKey(21), ST.StubPreKey(22)]
+
+    def pending_upload():
+        ids = [hooks.dict_get(x.attributes, "id") for x in w.sent_nodes if getattr(x, "tag", None) == "iq" and x.getChild("list") is not None]
+        return ids[-1] if ids and g["upload_open"] else None
+
+    def in_handshake():
+        return real_noise and w.noise._wa_noiseprotocol.state == w.NM.WANoiseProtocol.STATE_HANDSHAKE
+
+    def transport():
+        return not real_noise or w.noise._wa_noiseprotocol.state == w.NM.WANoiseProtocol.STATE_TRANSPORT
     N = SC.N()
-    g = dict(up=False, pending=False, authed=False, outstanding=[], expect_reconnect=False)       # ghost model
+    g = dict(up=False, pending=False, authed=False, outstanding=[], expect_reconnect=False, upload_open=False)       # ghost model
     obs = []
     hist = []
     for step in range(n):
@@ -176,9 +260,15 @@ def h_history(ctx, n, prefix=()):
                 possible.append(e)
             elif e == "socket-error" and disp.state in ("connecting", "up"):
                 possible.append(e)
+            elif e == "keys-upload-result" and disp.state == "up" and g["authed"] and pending_upload() is not None:
+                possible.append(e)
+            elif e in ("handshake-done", "handshake-failed") and disp.state == "up" and in_handshake():
+                possible.append(e)
             elif e in ("peer-close", "success", "failure", "stream-error-conflict", "stream-error-ack", "stream-error-other") and disp.state == "up":
                 if e == "success" and g["authed"]:
                     continue
+                if e != "peer-close" and not transport():
+                    continue          # stanzas only travel once the handshake is finished
                 possible.append(e)
             elif e == "disconnect-request" and disp.state in ("connecting", "up"):
                 possible.append(e)
@@ -196,12 +286,22 @@ def h_history(ctx, n, prefix=()):
         hist.append(ev)
         mark = len(w.log)
         n_ent = len(app.entities)
+        n_up = len([x for x in w.sent_nodes if getattr(x, "tag", None) == "iq" and x.getChild("list") is not None])
         if ev == "connect-request":
             app.connect()
             g["pending"] = True
+        elif ev == "keys-upload-result":
+            net.receive(N("iq", {"id": pending_upload(), "type": "result", "from": "s.whatsapp.net"}))
+            g["upload_open"] = False
         elif ev == "connected":
             disp.state = "up"
             net.onConnected()
+        elif ev == "handshake-done":
+            w.noise._wa_noiseprotocol.state = w.NM.WANoiseProtocol.STATE_TRANSPORT
+            w.noise._on_protocol_state_changed(w.NM.WANoiseProtocol.STATE_TRANSPORT)
+            w.worker.finish(None)
+        elif ev == "handshake-failed":
+            w.worker.finish(RuntimeError("handshake failed"))
         elif ev == "socket-error":
             disp.state = "idle"
             net.onConnectionError(IOError("boom"))
@@ -238,7 +338,9 @@ def h_history(ctx, n, prefix=()):
         else:
             obs.append((tag + ": no spurious connected announcement", ups == 0))
             obs.append((tag + ": no spurious login attempt", logins == 0))
-        closes = ev in ("socket-error", "peer-close", "disconnect-request", "failure", "stream-error-conflict", "stream-error-ack", "stream-error-other")
+        if len([x for x in w.sent_nodes if getattr(x, "tag", None) == "iq" and x.getChild("list") is not None]) > n_up:
+            g["upload_open"] = True
+        closes = ev in ("keys-upload-result", "socket-error", "peer-close", "disconnect-request", "failure", "stream-error-conflict", "stream-error-ack", "stream-error-other", "handshake-failed")
         keepalive_timeout = ev == "ping-tick" and len(g["outstanding"]) >= 1
         if ev == "ping-tick":
             # the id registered by this tick is whatever went out or was queued; read it from the layer's queue
@@ -256,9 +358,10 @@ def h_history(ctx, n, prefix=()):
                 obs.append((tag + ": transport state reset exactly once", new.count("transport-reset") == 1))
             else:
                 obs.append((tag + ": at most one down announcement for a failed attempt", downs <= 1))
-            will_reconnect = reconnect_opt and ev in ("stream-error-ack", "stream-error-other")
-            obs.append((tag + ": automatic reconnect iff stream error, not a conflict, option on", (new.count("dispatcher.connect") == 1) == will_reconnect))
-            g.update(up=False, authed=False, outstanding=[], pending=will_reconnect)
+            # the confirmed key upload of a passive login ends that login: the connection is re-established once, as an active login
+            will_reconnect = (reconnect_opt and ev in ("stream-error-ack", "stream-error-other")) or ev == "keys-upload-result"
+            obs.append((tag + ": automatic reconnect iff (stream error, not a conflict, option on) or end of a passive key-upload login", (new.count("dispatcher.connect") == 1) == will_reconnect))
+            g.update(up=False, authed=False, outstanding=[], pending=will_reconnect, upload_open=False)
             obs.append((tag + ": connection is closed", disp.state != "up" or will_reconnect is None))
         else:
             obs.append((tag + ": no spurious disconnected announcement", downs == 0))
@@ -268,8 +371,10 @@ def h_history(ctx, n, prefix=()):
             g["authed"] = True
         else:
             obs.append((tag + ": no spurious authenticated announcement", autheds == 0))
-        if ev == "failure" or ev.startswith("stream-error"):
+        if ev in ("failure", "handshake-failed") or ev.startswith("stream-error"):
             obs.append((tag + ": delivered to the application", len(app.entities) == n_ent + 1))
+        if real_noise and not g["up"]:
+            obs.append((tag + ": no handshake state is left over while the connection is down", not in_handshake() and not transport()))
         obs.append((tag + ": network layer state agrees (connected flag == announced up)", bool(net.connected) == g["up"]))
     ctx.note("history %s" % hist)
     obs.append(("nothing was ever written to a connection that is down (%s)" % w.violations[:1], not w.violations))
@@ -284,6 +389,13 @@ def cases(tier):
     for third in ("success", "socket-error", "peer-close", "disconnect-request", "failure", "stream-error-conflict", "stream-error-ack", "stream-error-other"):
         cs.append(dict(name="history[prefix=up+%s,len<=%d]" % (third, 7 if q else 10), fn=h_history, args=(7 if q else 10, up + (third,)), max_paths=2000000,
                        timeout_s=900 if q else 3400, keep_samples=6, weight=200 if third == "success" else 100))
+    cs.append(dict(name="history[prefix=up+success+keys-upload-result,len<=%d]" % (8 if q else 11), fn=h_history, args=(8 if q else 11, up + ("success", "keys-upload-result")), max_paths=2000000,
+                   timeout_s=900 if q else 3400, keep_samples=6, weight=150))
+    # the same with the REAL noise layer (handshake states as events) in place of the transport double
+    cs.append(dict(name="noise-layer-history[len<=%d]" % (6 if q else 8), fn=h_history, args=(6 if q else 8, (), True), max_paths=2000000, timeout_s=900 if q else 3400, keep_samples=8, weight=100))
+    for third in ("handshake-done", "socket-error", "peer-close", "disconnect-request", "handshake-failed"):
+        cs.append(dict(name="noise-layer-history[prefix=up+%s,len<=%d]" % (third, 7 if q else 10), fn=h_history, args=(7 if q else 10, up + (third,), True), max_paths=2000000,
+                       timeout_s=900 if q else 3400, keep_samples=6, weight=100))
     if not q:
         for fourth in ("ping-tick", "peer-close", "stream-error-ack", "disconnect-request"):
             cs.append(dict(name="history[prefix=up+success+%s,len<=11]" % fourth, fn=h_history, args=(11, up + ("success", fourth)), max_paths=4000000, timeout_s=3400, keep_samples=6, weight=400))
